@@ -26,7 +26,7 @@ RULE = (
 )
 ASSUMPTIONS = c01.ASSUMPTIONS + ["binary layouts are contiguous after the identifier (the property's domain)", "identifiers are ASCII literal text without surrounding blanks"]
 TRUSTED = []
-NOT_THEOREMS = ['positional text storage is a theorem for every stream (Props.C10.text_positional under the read half of the per-field law and the absence of line breaks in the renderings; Props.C10.text_positional_dom discharges both from the decidable domain of C01 for integers, literals, dates, missing values and floats — F notation any finite double, E notation zero or normal; other floats per case)', 'binary storage is a theorem for every stream (Props.C10.binary under the per-field binary law; Props.C10.binary_nodate / binary_all discharge it for integers, ASCII literals, floats, dates and missing values)', 'delimited text storage is a theorem as well (Props.C10.text_delimited / text_mixed under the per-token law; Props.C10.text_delimited_dom discharges it from the decidable domain of C01 for every kind)']
+NOT_THEOREMS = ['positional text storage is a theorem for every stream (Props.C10.text_positional under the read half of the per-field law and the absence of line breaks in the renderings; Props.C10.text_positional_dom discharges both from the decidable domain of C01 for integers, literals, dates, missing values and floats — F notation any finite double, E notation zero or at least 10^(decimals-322) in magnitude (every normal double, most subnormal ones); other floats per case)', 'binary storage is a theorem for every stream (Props.C10.binary under the per-field binary law; Props.C10.binary_nodate / binary_all discharge it for integers, ASCII literals, floats, dates and missing values)', 'delimited text storage is a theorem as well (Props.C10.text_delimited / text_mixed under the per-token law; Props.C10.text_delimited_dom discharges it from the decidable domain of C01 for every kind)']
 EXHAUSTIVE = {"quick": False, "thorough": False}
 
 
